@@ -482,3 +482,35 @@ Proof.
     apply Nat.eqb_eq in E1. apply Z.ltb_lt in E2. auto.
   - destruct (Hn eq_refl) as (A & _). congruence.
 Qed.
+
+(* ---------------------------------------------------------------- 5. which hook runs *)
+
+(** the hook the runner calls for a frame / a transmission is the one that was installed when the
+    runner read the field inside its critical section - whatever the application installs between
+    the runner's Unlock and the call *)
+Theorem kcall_is_locked_read pre mid h f0 k :
+  krun (kinit f0) (pre ++ [KLock]) = Some k ->
+  (forall e, In e mid -> e <> KLock) ->
+  (exists k', krun k (mid ++ [KCall h]) = Some k') ->
+  h = k_field k.
+Proof.
+  intros Hpre Hmid [k' Hrun].
+  assert (Hs : k_snap k = k_field k).
+  { clear Hrun. revert Hpre. generalize (kinit f0). induction pre as [|e tl IH]; intros k0 H; cbn in H.
+    - destruct (k_pc k0); try discriminate; inv H; reflexivity.
+    - change (match kstep k0 e with Some k1 => krun k1 (tl ++ [KLock])%list | None => None end = Some k) in H.
+      destruct (kstep k0 e); [|discriminate]. eapply IH; eauto. }
+  rewrite <- Hs. clear Hs Hpre. revert k Hrun. induction mid as [|e tl IH]; intros k Hrun.
+  - cbn in Hrun. destruct (k_pc k); try discriminate. destruct (Nat.eqb_spec h (k_snap k)); [auto|discriminate].
+  - change (match kstep k e with Some k1 => krun k1 (tl ++ [KCall h])%list | None => None end = Some k') in Hrun.
+    destruct (kstep k e) as [k1|] eqn:E; [|discriminate].
+    assert (He : e <> KLock) by (apply Hmid; left; reflexivity).
+    assert (Hk : k_snap k1 = k_snap k).
+    { unfold kstep in E. destruct e, (k_pc k); try discriminate; try congruence; inv E; try reflexivity.
+      destruct (Nat.eqb h0 (k_snap k)); inv H0; reflexivity. }
+    rewrite <- Hk. apply IH; auto. intros e' Hin. apply Hmid. right; exact Hin.
+Qed.
+
+(** the application cannot replace the hook inside the runner's critical section *)
+Theorem kset_not_while_locked k h k' : kstep k (KSet h) = Some k' -> k_pc k <> KLocked /\ k_snap k' = k_snap k.
+Proof. unfold kstep. destruct (k_pc k); intros H; inv H; split; auto; discriminate. Qed.
